@@ -26,13 +26,11 @@ pub fn check_case(ctx: &Ctx, tcs: &[String], cfg: &Cfg) {
             return crate::findings::report(ctx, viol("C01", "invalid", format!("invalid:{}", err.chars().take(50).collect::<String>()), tcs, cfg, &out, json!({"error": err})));
         }
     };
-    // the returned pattern itself must compile in the real engine
-    if let Err(e) = lang::compile_real(&out) {
-        return crate::findings::report(ctx, viol("C01", "invalid", format!("does-not-compile:{}", e.chars().take(40).collect::<String>()), tcs, cfg, &out, json!({"error": e})));
-    }
+    // the returned pattern itself parsed (build_lang); compiling it inside the ^(?:..)$ wrapper exercises the
+    // same translation and NFA construction, so one compilation per case suffices
     let re = match lang::compile_real(&lang::wrap_text(&text)) {
         Ok(r) => r,
-        Err(e) => return run.machinery_error(format!("wrapped pattern rejected {:?}: {e}", text)),
+        Err(e) => return crate::findings::report(ctx, viol("C01", "invalid", format!("does-not-compile:{}", e.chars().take(40).collect::<String>()), tcs, cfg, &out, json!({"error": e}))),
     };
     let mut it = lang::Interner::default();
     let nfa = match lang::Nfa::from_hir(&hir, &mut it) {
@@ -68,11 +66,13 @@ pub fn blocks(thorough: bool) -> Vec<Block> {
     let full = lattice_all(0, free);
     if !thorough {
         b.push(Block::new(Universe::new("U_ab3{a,b}", &["a", "b"], 3, 0, false), k1.clone(), "Lambda<=1 (no u,c)"));
-        b.push(Block::new(Universe::new("U_abc2{a,b,c}", &["a", "b", "c"], 2, 0, true), k2.clone(), "Lambda<=2 (no u,c)"));
+        b.push(Block::new(Universe::new("U_abc2{a,b,c}", &["a", "b", "c"], 2, 3, true), k2.clone(), "Lambda<=2 (no u,c)"));
+        b.push(Block::new(Universe::new("U_abc2{a,b,c}", &["a", "b", "c"], 2, 0, false), vec![Cfg::new(0), Cfg::new(R), Cfg::new(NA | NE), Cfg::new(I | X)], "{}, r, na+ne, i+x"));
         for (n, a) in [("A_meta", A_META), ("A_ws", A_WS), ("A_gc", A_GC), ("A_case", A_CASE), ("A_cls", A_CLS), ("A_esc", A_ESC), ("A_sgr", A_SGR)] {
-            b.push(Block::new(Universe::new(&format!("U_adv({n})"), a, 2, 2, true), k1.clone(), "Lambda<=1 (no u,c)"));
+            b.push(Block::new(Universe::new(&format!("U_adv({n})"), a, 1, 2, true), k2.clone(), "Lambda<=2 (no u,c)"));
+            b.push(Block::new(Universe::new(&format!("U_adv({n})"), a, 2, 2, false), vec![Cfg::new(0), Cfg::new(R), Cfg::new(X), Cfg::new(I), Cfg::new(E), Cfg::new(NW | D)], "{}, r, x, i, e, W+d"));
         }
-        b.push(Block::new(Universe::new("U_adv(A_gc)", A_GC, 3, 1, false), k2.clone(), "Lambda<=2 (no u,c)"));
+        b.push(Block::new(Universe::new("U_adv(A_gc)", A_GC, 3, 1, false), k1.clone(), "Lambda<=1 (no u,c)"));
     } else {
         b.push(Block::new(Universe::new("U_ab3{a,b}", &["a", "b"], 3, 0, false), k2.clone(), "Lambda<=2 (no u,c)"));
         b.push(Block::new(Universe::new("U_abc2{a,b,c}", &["a", "b", "c"], 2, 0, true), full.clone(), "Lambda_full (no u,c)"));
